@@ -264,10 +264,16 @@ def units(tier, seed):
     out.append(("szero", {"per": 2 if q else 20}))
     out.append(("pubkeys", {"per": 3 if q else 20}))
     out.append(("sign_number", {"examples": 150 if q else 4000}))
+    out.append(("faults", {"jobset": 'keys', "arg": 'NIST224p', "examples": 40 if tier == "quick" else 1500, "triples": 400 if tier == "quick" else 20000}))
+    out.append(("faults", {"jobset": 'keys', "arg": 't13', "examples": 40 if tier == "quick" else 1500, "triples": 400 if tier == "quick" else 20000}))
     return out
 
 
 def run_unit(ctx, name, **kw):
+    if name == "faults":
+        from . import faults
+        faults.run_set(ctx, **kw)
+        return
     if name == "flag-history":
         flag_history(ctx)
         return
@@ -334,6 +340,10 @@ def run_unit(ctx, name, **kw):
 
 
 def replay(ctx, case):
+    if case.get("kind") == "fault-history":
+        from . import faults
+        faults.replay(ctx, case)
+        return
     k = case.get("kind")
     if k == "flag-history":
         flag_history(ctx)
